@@ -49,6 +49,9 @@ var rewriteShapes = []string{
 	// bounded loops in front (no bump-along marker), atomic alternations where a later branch is a prefix of an earlier one's sibling
 	`a*a|a*b`, `a+b|a+c`, `[ab]*a|[ab]*c`, `a{2}b|a{2}c`, `a*?b|a*?c`, `(?>a*a|a*b)`, `a{1,2}b`, `a{1,3}b`, `[ab]{1,2}c`, `a{0,2}?b`,
 	`(?>x|ab|a)b?`, `(?>xy|ab|a)b?`, `(?>hi|hello|he|there)l?`, `(?>b|ab|a|abc)c?`,
+	// \B after a loop of non-word characters at the end of the pattern: holds between two loop characters, may fail
+	// after the last one (known finding c05-nonboundary-end until fixed); sound when something disjoint follows
+	`\W+\B`, `-+\B`, `\D+\B`, `\W+\B\d*`, `[-.]+\B`, `\W+\B\w`, `\w+\B`, `\w+\b\s*`, `(?>\W+)\B`, `\s+\B`,
 	`(?<a-b>x|(?<b>x))`, `(?=(?<a-b>x|(?<b>x)))x`, `a(?<a-b>(?<b>x)*?|x)`, `(?>(?<a-b>x*?|(?<b>x)))`, `(?<b>a)?(?<a-b>x|(?<b>x))c?`, `(?<a-b>(?:x|(?<b>x))+?)`, `(?<b>a)(?<-b>x*)x`,
 }
 
@@ -74,6 +77,7 @@ func legGates(c *Ctx) {
 			continue
 		}
 		onWire := ExportTree(treeOn, on.VerifCode())
+		nbGuard := nonboundaryAtEnd(treeOn.Root)
 		gates := []uint32{31, 1, 2, 4, 8, 16}
 		for gi, g := range gates {
 			if gi > 0 && !c.Rng.Chance(35) {
@@ -158,6 +162,10 @@ func legGates(c *Ctx) {
 						continue
 					}
 					cs := &Case{Desc: desc, Nontrivial: differs && a2 != nil, Key: desc, Class: fmt.Sprintf("gate%d", g)}
+					if g&1 != 0 && nbGuard {
+						cs.Guard = "c05-nonboundary-end"
+						c.Hist("guarded-c05-nonboundary-end")
+					}
 					switch {
 					case !matchEq(a1, a2):
 						cs.Direct = fmt.Sprintf("search with rewrites on returned %s, with the rewrite family off %s", matchStr(a1), matchStr(a2))
@@ -179,4 +187,95 @@ func legGates(c *Ctx) {
 		c.Gate(fmt.Sprintf("rewrite family %d changed some tree", g), fired[g] > 0)
 		c.res.Histogram[fmt.Sprintf("family%d-fired", g)] = fired[g]
 	}
+}
+
+// Guard of the known finding c05-nonboundary-end (Properties/C05.v C05_R4_nonboundary_at_end_refuted): the tree
+// compiled with the rewrites on contains an atomic single-character loop with min > 0 whose next sibling (past the
+// bump-along marker) is \B, and from that \B to the end of the pattern only nodes that can match the empty string
+// follow, walking up exactly as canBeMadeAtomic does (through Concatenate tails, Capture, Atomic, Alternate).
+func nonboundaryAtEnd(n *syntax.RegexNode) bool {
+	if n == nil {
+		return false
+	}
+	if n.T == syntax.NtConcatenate {
+		for i, ch := range n.Children {
+			if (ch.T == syntax.NtOneloopatomic || ch.T == syntax.NtSetloopatomic) && ch.M > 0 {
+				j := i + 1
+				if j < len(n.Children) && n.Children[j].T == syntax.NtUpdateBumpalong {
+					j++
+				}
+				if j < len(n.Children) && (n.Children[j].T == syntax.NtNonboundary || n.Children[j].T == syntax.NtNonECMABoundary) &&
+					onlyNullableToEnd(n, j+1) {
+					return true
+				}
+			}
+		}
+	}
+	for _, ch := range n.Children {
+		if nonboundaryAtEnd(ch) {
+			return true
+		}
+	}
+	return false
+}
+
+// every sibling of concat from index i on can match the empty string, and so on up to the root
+func onlyNullableToEnd(concat *syntax.RegexNode, i int) bool {
+	for ; i < len(concat.Children); i++ {
+		if !c05Nullable(concat.Children[i]) {
+			return false
+		}
+	}
+	node := concat
+	for node.Parent != nil {
+		p := node.Parent
+		switch p.T {
+		case syntax.NtAtomic, syntax.NtAlternate, syntax.NtCapture:
+			node = p
+		case syntax.NtConcatenate:
+			idx := -1
+			for k, ch := range p.Children {
+				if ch == node {
+					idx = k
+				}
+			}
+			for k := idx + 1; k < len(p.Children); k++ {
+				if !c05Nullable(p.Children[k]) {
+					return false
+				}
+			}
+			node = p
+		default:
+			return false
+		}
+	}
+	return true
+}
+
+func c05Nullable(n *syntax.RegexNode) bool {
+	switch n.T {
+	case syntax.NtEmpty, syntax.NtUpdateBumpalong, syntax.NtBol, syntax.NtEol, syntax.NtBoundary, syntax.NtNonboundary, syntax.NtECMABoundary,
+		syntax.NtNonECMABoundary, syntax.NtBeginning, syntax.NtStart, syntax.NtEndZ, syntax.NtEnd, syntax.NtPosLook, syntax.NtNegLook:
+		return true
+	case syntax.NtOneloop, syntax.NtNotoneloop, syntax.NtSetloop, syntax.NtOnelazy, syntax.NtNotonelazy, syntax.NtSetlazy,
+		syntax.NtOneloopatomic, syntax.NtNotoneloopatomic, syntax.NtSetloopatomic, syntax.NtLoop, syntax.NtLazyloop:
+		return n.M == 0 || (len(n.Children) == 1 && c05Nullable(n.Children[0]))
+	case syntax.NtConcatenate:
+		for _, ch := range n.Children {
+			if !c05Nullable(ch) {
+				return false
+			}
+		}
+		return true
+	case syntax.NtAlternate:
+		for _, ch := range n.Children {
+			if c05Nullable(ch) {
+				return true
+			}
+		}
+		return false
+	case syntax.NtCapture, syntax.NtAtomic, syntax.NtGroup:
+		return len(n.Children) == 1 && c05Nullable(n.Children[0])
+	}
+	return false
 }
